@@ -590,11 +590,271 @@ mod writers {
     }
 }
 
-/// Placeholder modules filled in below.
+/// The anchored callers (`src/peer_connection.rs`, `src/transports/ice/mod.rs`): a real
+/// `PeerConnection` in RTP mode with latching, driven through SDP and real loopback UDP sockets.
+///  * pranswer → the transport is created, latching enabled, destination set from signaling;
+///  * UDP datagrams from several local sockets (two share the IP, two share the port) → `IceConn::receive`;
+///  * final answer with a changed endpoint → `set_remote_addr_from_signaling` (model op `sg`);
+///  * re-INVITE with a changed endpoint → `complete_direct_rtp` → selected-pair change → the pair
+///    monitor task → `set_remote_addr_from_selected_pair` (model op `pr`);
+///  * an (unauthenticated, RTP-mode) STUN binding request from another IP with the pair's port →
+///    STUN-driven pair rewrite (`mod.rs` "RTP latching: updating remote address") → monitor → `pr`;
+///    from any other port → no pair change;
+///  * after every step `IceConn::send` / `try_send` / `send_rtcp` are called and the datagrams must
+///    arrive at the socket the model's destination names (the *send address*, not only the field).
+/// Compared with the model after every step: destination and latch flag.
 mod pc_stream {
     use super::*;
-    pub fn run(_run: &mut Run, _rt: &tokio::runtime::Runtime, _args: &Args) {}
-    pub fn replay(_rt: &tokio::runtime::Runtime, _case: &str) {}
+    use rustrtc::transports::ice::stun::{StunClass, StunMessage, StunMethod};
+    use rustrtc::{MediaKind, PeerConnection, RtcConfiguration, SdpType, SessionDescription, TransceiverDirection, TransportMode};
+    use std::time::Duration;
+    use tokio::net::UdpSocket;
+
+    /// symbolic addresses: index → (ip code, symbolic port, 127.0.0.x host byte)
+    /// S signaled endpoint, A, C (same IP as A), B (same port as C), T second signaled endpoint,
+    /// X (same port as S, other IP: the only kind of source the STUN rewrite accepts), Y same for T
+    const SYM: [(u8, u16, u8); 7] = [(9, 5009, 9), (1, 5001, 1), (1, 5002, 1), (2, 5002, 2), (4, 5004, 4), (3, 5009, 3), (3, 5004, 3)];
+    const NAMES: [&str; 7] = ["S", "A", "C", "B", "T", "X", "Y"];
+
+    #[derive(Clone, Debug)]
+    pub enum Step { Pkt(usize, Vec<u8>), Answer(usize), Reinvite(usize), Stun(usize) }
+    #[derive(Clone, Debug)]
+    pub struct PcCase { pub maxp: u8, pub ssrc: bool, pub steps: Vec<Step> }
+
+    pub fn case_text(c: &PcCase) -> String {
+        format!("pc {},{} {}", c.maxp, c.ssrc as u8, c.steps.iter().map(|s| match s {
+            Step::Pkt(i, b) => format!("p,{},{}", NAMES[*i], hex(b)),
+            Step::Answer(i) => format!("answer,{}", NAMES[*i]),
+            Step::Reinvite(i) => format!("reinvite,{}", NAMES[*i]),
+            Step::Stun(i) => format!("stun,{}", NAMES[*i]) }).collect::<Vec<_>>().join(" "))
+    }
+    pub fn parse(s: &str) -> PcCase {
+        let mut it = s.split_whitespace(); it.next();
+        let h: Vec<&str> = it.next().unwrap().split(',').collect();
+        let idx = |n: &str| NAMES.iter().position(|x| *x == n).unwrap();
+        let steps = it.map(|t| { let f: Vec<&str> = t.split(',').collect(); match f[0] {
+            "p" => Step::Pkt(idx(f[1]), crate::unhex(f[2])), "answer" => Step::Answer(idx(f[1])),
+            "reinvite" => Step::Reinvite(idx(f[1])), _ => Step::Stun(idx(f[1])) } }).collect();
+        PcCase { maxp: h[0].parse().unwrap(), ssrc: h[1] == "1", steps }
+    }
+
+    struct Net { socks: Vec<UdpSocket> }
+    impl Net {
+        /// bind the seven sockets on ephemeral ports such that the "same port" relations hold
+        async fn new() -> Option<Net> {
+            for _ in 0..50 {
+                let bind = |h: u8, port: u16| async move { UdpSocket::bind(SocketAddr::new(IpAddr::V4(Ipv4Addr::new(127, 0, 0, h)), port)).await.ok() };
+                let Some(s) = bind(9, 0).await else { continue };
+                let Some(a) = bind(1, 0).await else { continue };
+                let Some(c) = bind(1, 0).await else { continue };
+                let Some(b) = bind(2, c.local_addr().unwrap().port()).await else { continue };
+                let Some(t) = bind(4, 0).await else { continue };
+                let Some(x) = bind(3, s.local_addr().unwrap().port()).await else { continue };
+                let Some(y) = bind(3, t.local_addr().unwrap().port()).await else { continue };
+                return Some(Net { socks: vec![s, a, c, b, t, x, y] });
+            }
+            None
+        }
+        fn real(&self, i: usize) -> SocketAddr { self.socks[i].local_addr().unwrap() }
+        fn sym(&self, a: SocketAddr) -> (u8, u16) {
+            for (i, s) in self.socks.iter().enumerate() { if s.local_addr().unwrap() == a { return (SYM[i].0, SYM[i].1); } }
+            (250, a.port())
+        }
+        async fn drain(&self) { let mut b = [0u8; 2048]; for s in &self.socks { while s.try_recv_from(&mut b).is_ok() {} } }
+        /// index of the socket that receives a datagram starting with `tag` within the timeout
+        async fn who_gets(&self, tag: &[u8]) -> Option<usize> {
+            let deadline = tokio::time::Instant::now() + Duration::from_millis(300);
+            let mut b = [0u8; 2048];
+            loop {
+                for (i, s) in self.socks.iter().enumerate() {
+                    while let Ok((n, _)) = s.try_recv_from(&mut b) { if b[..n].starts_with(tag) { return Some(i); } }
+                }
+                if tokio::time::Instant::now() > deadline { return None; }
+                tokio::time::sleep(Duration::from_millis(2)).await;
+            }
+        }
+    }
+
+    fn sdp(addr: SocketAddr, ver: u32, ssrc: bool) -> String {
+        format!("v=0\r\no=- 1 {ver} IN IP4 {ip}\r\ns=-\r\nt=0 0\r\nc=IN IP4 {ip}\r\nm=audio {port} RTP/AVP 0\r\na=rtpmap:0 PCMU/8000\r\na=rtcp-mux\r\na=sendrecv\r\n{s}",
+            ip = addr.ip(), port = addr.port(), s = if ssrc { format!("a=ssrc:{} cname:verif\r\n", SSRC) } else { String::new() })
+    }
+
+    pub struct PcOut { pub model_ops: Vec<String>, pub obs: Vec<String>, pub fails: Vec<(String, String)>, pub stun_rewrites: u64, pub stun_moved_open: u64, pub hidden: Vec<String> }
+
+    pub async fn exec(c: &PcCase) -> Result<PcOut, String> {
+        let net = Net::new().await.ok_or("could not bind the loopback sockets")?;
+        let mut cfg = RtcConfiguration::default();
+        cfg.transport_mode = TransportMode::Rtp;
+        cfg.enable_latching = true;
+        cfg.bind_ip = Some("127.0.0.1".into());
+        cfg.disable_ipv6 = true;
+        cfg.probation_max_packets = if c.maxp == 0 { None } else { Some(c.maxp) };
+        let pc = PeerConnection::new(cfg);
+        pc.add_transceiver(MediaKind::Audio, TransceiverDirection::SendRecv);
+        let offer = pc.create_offer().await.map_err(|e| format!("create_offer: {e:?}"))?;
+        pc.set_local_description(offer).map_err(|e| format!("set_local: {e:?}"))?;
+        let local = pc.ice_transport().local_candidates().into_iter().find(|c| c.component == 1).ok_or("no local candidate")?.address;
+        let pr = SessionDescription::parse(SdpType::Pranswer, &sdp(net.real(0), 1, c.ssrc)).map_err(|e| format!("sdp: {e:?}"))?;
+        pc.set_remote_description(pr).await.map_err(|e| format!("set_remote(pranswer): {e:?}"))?;
+        let mut transport = None;
+        for _ in 0..500 { if let Some(t) = pc.verif_lc_rtp_transport() { transport = Some(t); break; } tokio::time::sleep(Duration::from_millis(2)).await; }
+        let conn = transport.ok_or("no rtp transport after pranswer")?.ice_conn();
+        tokio::time::sleep(Duration::from_millis(20)).await;
+        let observe = |net: &Net| { let r = net.sym(*conn.remote_addr.read()); format!("{}:{}/{}", r.0, r.1, conn.rtp_latched.load(Ordering::Relaxed) as u8) };
+        let mut out = PcOut { model_ops: vec![format!("init,{},{},{},0", SYM[0].0, SYM[0].1, c.maxp), "en".into(), format!("sg,{},{}", SYM[0].0, SYM[0].1)], obs: vec![], fails: vec![], stun_rewrites: 0, stun_moved_open: 0, hidden: vec![] };
+        { let (on, exp, mx, pr) = conn.verif_latch_state(); out.hidden.push(format!("on={on} expected={exp} maxp={mx} prob={:?}", pr.map(|p| (p.0, p.1, p.2.len())))); }
+        if c.ssrc { out.model_ops.push(format!("ss,{SSRC}")); }
+        out.model_ops.push("|".into());
+        out.obs.push(observe(&net));
+        let mut ver = 2;
+        let mut pair_remote = 0usize; // symbolic index of the selected pair's remote
+        let mut signaled = 0usize;    // symbolic index of the endpoint in the last applied remote SDP
+        for (k, st) in c.steps.iter().enumerate() {
+            let before = *conn.remote_addr.read();
+            match st {
+                Step::Pkt(i, b) => {
+                    let n0 = conn.rx_packets.load(Ordering::Relaxed);
+                    net.socks[*i].send_to(b, local).await.map_err(|e| format!("send: {e}"))?;
+                    for _ in 0..500 { if conn.rx_packets.load(Ordering::Relaxed) > n0 { break; } tokio::time::sleep(Duration::from_millis(2)).await; }
+                    if conn.rx_packets.load(Ordering::Relaxed) == n0 { return Err(format!("step {k}: datagram not delivered to IceConn::receive")); }
+                    out.model_ops.push(format!("p,{},{},{}", SYM[*i].0, SYM[*i].1, hex(b)));
+                }
+                Step::Answer(i) => {
+                    let d = SessionDescription::parse(SdpType::Answer, &sdp(net.real(*i), ver, c.ssrc)).map_err(|e| format!("sdp: {e:?}"))?; ver += 1;
+                    pc.set_remote_description(d).await.map_err(|e| format!("set_remote(answer): {e:?}"))?;
+                    // an SDP whose media parameters are unchanged is not re-applied (`set_remote_description` shortcut)
+                    if *i != signaled { out.model_ops.push(format!("sg,{},{}", SYM[*i].0, SYM[*i].1)); pair_remote = *i; signaled = *i; }
+                    else { out.model_ops.push(format!("mp,{}", c.maxp)); }
+                }
+                Step::Reinvite(i) => {
+                    let d = SessionDescription::parse(SdpType::Offer, &sdp(net.real(*i), ver, c.ssrc)).map_err(|e| format!("sdp: {e:?}"))?; ver += 1;
+                    pc.set_remote_description(d).await.map_err(|e| format!("set_remote(reinvite): {e:?}"))?;
+                    let a = pc.create_answer().await.map_err(|e| format!("create_answer: {e:?}"))?;
+                    pc.set_local_description(a).map_err(|e| format!("set_local(answer): {e:?}"))?;
+                    // `handle_reinvite` → `complete_direct_rtp` (a pair update, applied by the monitor task) and then
+                    // `configure_rtp_media_transports_from_remote` → `set_remote_addr_from_signaling`: net effect `sg`
+                    if *i != signaled { out.model_ops.push(format!("sg,{},{}", SYM[*i].0, SYM[*i].1)); pair_remote = *i; signaled = *i; }
+                    else { out.model_ops.push(format!("mp,{}", c.maxp)); }
+                }
+                Step::Stun(i) => {
+                    let m = StunMessage { class: StunClass::Request, method: StunMethod::Binding, transaction_id: [k as u8; 12], attributes: vec![] };
+                    let bytes = m.encode(None, true).map_err(|e| format!("stun encode: {e:?}"))?;
+                    net.socks[*i].send_to(&bytes, local).await.map_err(|e| format!("send: {e}"))?;
+                    // the rewrite applies to a source with the pair's port and another IP
+                    let applies = SYM[*i].1 == SYM[pair_remote].1 && SYM[*i].0 != SYM[pair_remote].0;
+                    if applies { out.model_ops.push(format!("pr,{},{}", SYM[*i].0, SYM[*i].1)); pair_remote = *i; out.stun_rewrites += 1; }
+                    else { out.model_ops.push(format!("mp,{}", c.maxp)); } // a no-op for the model
+                    tokio::time::sleep(Duration::from_millis(30)).await;
+                }
+            }
+            tokio::time::sleep(Duration::from_millis(25)).await; // let the pair-monitor task run
+            out.obs.push(observe(&net));
+            // the send paths use the destination the latch state machine holds
+            let dest = *conn.remote_addr.read();
+            if dest.port() != 0 {
+                net.drain().await;
+                let want = net.socks.iter().position(|s| s.local_addr().unwrap() == dest);
+                for (name, tag) in [("send", &b"\x80\x60send"[..]), ("try_send", &b"\x80\x60trys"[..]), ("send_rtcp", &b"\x80\xc9rtcp"[..])] {
+                    let r = match name { "send" => conn.send(tag).await.map(|_| ()), "try_send" => conn.try_send(tag).map(|_| ()), _ => conn.send_rtcp(tag).await.map(|_| ()) };
+                    if let Err(e) = r { out.fails.push((format!("pc:send-path:{name}-failed"), format!("step {k}: {e}"))); continue; }
+                    let got = net.who_gets(tag).await;
+                    if got != want { out.fails.push((format!("pc:send-path:{name}-goes-elsewhere"),
+                        format!("step {k}: destination field {:?}, datagram arrived at {:?}", net.sym(dest), got.map(|g| NAMES[g])))); }
+                }
+            }
+            if matches!(st, Step::Stun(_)) && *conn.remote_addr.read() != before { out.stun_moved_open += 1; }
+            { let (on, exp, mx, pr) = conn.verif_latch_state(); out.hidden.push(format!("on={on} expected={exp} maxp={mx} prob={:?}", pr.map(|p| (p.0, p.1, p.2.len())))); }
+        }
+        pc.close();
+        Ok(out)
+    }
+
+    fn emit(run: &mut Run, rt: &tokio::runtime::Runtime, c: &PcCase) {
+        let text = case_text(c);
+        match rt.block_on(exec(c)) {
+            Err(e) => { run.count("pc_setup_errors"); run.fail("pc:scenario-could-not-run", &text, &e); }
+            Ok(o) => {
+                let input = o.model_ops.join(" ");
+                run.case("pc", &input, &o.obs.join(" "), true);
+                run.count("pc_scenarios");
+                run.count_n("pc_stun_pair_rewrites", o.stun_rewrites);
+                // visible in the evidence: an unauthenticated RTP-mode STUN request (same port, other IP) moved the
+                // destination while the latch was open — a selected-pair update in the property's alphabet
+                run.count_n("pc_stun_request_moved_open_destination", o.stun_moved_open);
+                // property oracles on the observations: the same `oracles` as the bare-IceConn stream,
+                // applied to the op list the scenario stands for (public fields only)
+                let ops: Vec<String> = o.model_ops.iter().filter(|t| *t != "|").cloned().collect();
+                let case = parse_case(&ops.join(" "));
+                let npre = o.model_ops.iter().position(|t| t == "|").unwrap() - 1;
+                let parse_obs = |t: &str| { let (r, l) = t.split_once('/').unwrap(); let (i, p) = r.split_once(':').unwrap();
+                    Obs { remote: (i.parse().unwrap(), p.parse().unwrap()), rtcp: None, latched: l == "1", rtcpl: false, fwd: "-", on: true, exp: 0, maxp: 0, prob: None } };
+                // states during the prefix are not observable (inside set_remote_description): replay it on a bare IceConn
+                let pre = exec_prefix(rt, &case, npre);
+                let mut obs: Vec<Obs> = pre;
+                obs.pop();
+                obs.extend(o.obs.iter().map(|t| parse_obs(t)));
+                for (sig, d) in oracles(&case, &obs) { if !sig.starts_with("rtcp:set") { run.fail(&format!("pc:{sig}"), &text, &d); } }
+                for (sig, d) in o.fails { run.fail(&sig, &text, &d); }
+            }
+        }
+    }
+    fn exec_prefix(rt: &tokio::runtime::Runtime, case: &Case, npre: usize) -> Vec<Obs> {
+        let c = Case { init: case.init, maxp: case.maxp, tcp: false, ops: case.ops[..npre].to_vec() };
+        super::exec(rt, &c)
+    }
+
+    fn scenarios(args: &Args) -> Vec<PcCase> {
+        let p = |i: usize, m: bool, seq: u16| Step::Pkt(i, rtp(m, seq, seq as u32, SSRC));
+        let wrong = |i: usize| Step::Pkt(i, rtp(true, 7, 7, 0xdead_beef));
+        let rtcp_ = |i: usize| Step::Pkt(i, rtcp());
+        let mut v = vec![
+            // commit by marker, then everything that must not move the destination
+            PcCase { maxp: 6, ssrc: true, steps: vec![p(1, true, 10), p(2, true, 1), rtcp_(3), wrong(3), Step::Stun(5), Step::Answer(0), Step::Stun(5), Step::Stun(1), p(3, true, 2)] },
+            // re-INVITE to a new endpoint resets and retargets; STUN from the new pair's port retargets the open latch
+            PcCase { maxp: 6, ssrc: true, steps: vec![p(1, true, 10), Step::Answer(0), Step::Reinvite(4), rtcp_(2), Step::Stun(5), Step::Stun(6), wrong(1), p(2, true, 3), Step::Stun(5), Step::Reinvite(4)] },
+            // open latch: pair updates do move it, wrong-SSRC / RTCP / non-matching STUN do not
+            PcCase { maxp: 6, ssrc: true, steps: vec![rtcp_(1), wrong(2), Step::Stun(1), Step::Stun(5), p(1, false, 10), Step::Answer(4), Step::Stun(6), p(2, false, 20), p(2, false, 21), p(2, false, 22)] },
+            // changed final answer resets the latch and retargets
+            PcCase { maxp: 3, ssrc: true, steps: vec![p(1, true, 10), Step::Answer(4), rtcp_(2), p(3, false, 5), p(2, false, 9), p(3, false, 6)] },
+            // same final answer keeps the latched NAT address
+            PcCase { maxp: 3, ssrc: false, steps: vec![p(1, true, 10), Step::Answer(0), p(2, true, 1), Step::Stun(5)] },
+            // immediate-latch mode, no SSRC known
+            PcCase { maxp: 0, ssrc: false, steps: vec![rtcp_(2), p(2, false, 1), p(1, false, 2), Step::Answer(4), Step::Stun(6), Step::Reinvite(0), p(3, false, 9)] },
+            // rule competition through the real sockets (window 6)
+            PcCase { maxp: 6, ssrc: true, steps: vec![p(3, false, 1), p(1, false, 100), p(3, false, 10), p(1, false, 101), p(3, false, 20), p(1, false, 102), p(2, true, 0)] },
+        ];
+        let mut rng = Rng::new(args.seed ^ 0x18);
+        let n = if args.tier_thorough { 120 } else { 14 };
+        for _ in 0..n {
+            let mut steps = vec![];
+            let mut answered = false;
+            let mut seqs = [100u16, 200, 300, 400, 500, 600, 700];
+            for _ in 0..rng.range(4, 12) {
+                let r = rng.below(100);
+                steps.push(if r < 55 { let i = *rng.pick(&[1usize, 2, 3, 3, 2, 5]); seqs[i] = if rng.chance(2, 3) { seqs[i].wrapping_add(1) } else { seqs[i].wrapping_sub(3) }; p(i, rng.chance(1, 6), seqs[i]) }
+                    else if r < 65 { wrong(*rng.pick(&[1usize, 2, 3])) } else if r < 75 { rtcp_(*rng.pick(&[1usize, 2, 3])) }
+                    else if r < 87 { Step::Stun(*rng.pick(&[1usize, 3, 5, 6])) }
+                    else if answered { Step::Reinvite(*rng.pick(&[0usize, 4])) }
+                    else { answered = true; Step::Answer(*rng.pick(&[0usize, 4])) });
+            }
+            v.push(PcCase { maxp: *rng.pick(&[0u8, 2, 3, 6]), ssrc: rng.chance(2, 3), steps });
+        }
+        v
+    }
+
+    pub fn run(run: &mut Run, rt: &tokio::runtime::Runtime, args: &Args) {
+        for c in scenarios(args) { emit(run, rt, &c); }
+    }
+    pub fn replay(rt: &tokio::runtime::Runtime, case: &str) {
+        let c = parse(case);
+        match rt.block_on(exec(&c)) {
+            Err(e) => println!("pc scenario could not run: {e}"),
+            Ok(o) => { println!("model ops: {}", o.model_ops.join(" ")); println!("impl: {}", o.obs.join(" "));
+                for (i, h) in o.hidden.iter().enumerate() { println!("hidden[{i}]: {h}"); }
+                for (s, d) in o.fails { println!("ORACLE-FAIL {s} {d}"); } }
+        }
+    }
 }
 mod race {
     use super::*;
